@@ -14,12 +14,23 @@ Hypotheses that do appear are explicit:
 * `StepsDisjoint` — the related-viewgram sets processed for a subset are disjoint (property C06).
 Each is shown satisfiable by a concrete instance in the `example`s.
 
+`G`, `idx` (and the related-position lists inside `S`) describe the projection data **passed to the call**; `rows` belongs to
+the geometry the projectors were set up with.  Since nothing is assumed about how the two are related, every theorem below
+about `fwdSubset` / `bckSubset` / `fwdRelated` / `bckRelated` also covers projection data that are smaller than the set-up
+geometry (fewer segments, trimmed axial and tangential ranges) — the harness drives the real projectors and the model in both
+situations (`fwd`/`bsub` and `fwd2`/`bsub2` operations) — and `C04_fwd_smaller_data_is_restriction` states what connects the two.
+The data processors of `set_input` / `get_output` are arbitrary functions on the voxel array (`Proc`).
+
 The last clause of the property ("the on-the-fly ray-tracing forward projector gives the same data as forward projection
 through the ray-tracing matrix") is about `ForwardProjectorByBinUsingRayTracing`, which is not modelled: it is evaluated on
-the implementation by the oracle of `harness/c04_projectors.cxx` only (two known candidates found there: the half-plane term
-dropped at tangential position 0 in `forward_project_all_symmetries_2D`, and `+=` instead of overwriting the viewgrams).
+the implementation by the oracle of `harness/c04_projectors.cxx` only — with `restrict_to_cylindrical_FOV` true and false,
+numbers of views 4k / 4k+2 (odd: refused), z origins off by whole planes, anisotropic voxels, one or two planes per ring,
+every segment with full ranges and axial+tangential sub-ranges, and projection data smaller than the set-up geometry.
+Found there: the half-plane term dropped at tangential position 0 in `forward_project_all_symmetries_2D` (repaired in /repo),
+`+=` instead of overwriting the viewgrams, the `plus_90` routines used at 45 degrees for non-square voxels, and the hard-coded
+two planes per ring in `proj_Siddon` (the last two: known candidates with proposed repairs `build/fixes/C04-1.diff`, `C04-2.diff`).
 -/
-import StirVerif.C04.ProofsSubset
+import StirVerif.C04.ProofsProc
 
 set_option linter.unusedSectionVars false
 set_option linter.unusedSimpArgs false
@@ -80,7 +91,8 @@ theorem C04_adjoint_related (cache : Bool) (rel : Int → Int → List (Int × I
 /-- … "for the full data set and for every subset": `ForwardProjectorByBin::forward_project(proj_data, subset_num,
     num_subsets, zero)` against `BackProjectorByBin::back_project(proj_data, subset_num, num_subsets)`, for every
     `0 ≤ subset_num < num_subsets`, both values of `zero`, either branch — the inner product taken over the bins the
-    projectors process for that subset. -/
+    projectors process for that subset.  (`G`, `idx` are those of `proj_data`: the statement is the same whether
+    `proj_data` has the set-up geometry or a smaller one; the driver executes `fwdSubset`/`bckSubset` for both.) -/
 theorem C04_adjoint_subset (cache : Bool) (x y d : Array K) (i n : Int) (zero : Bool) (hi : 0 ≤ i) (hin : i ≤ n - 1)
     (hinj : InjOn idx (stepBins (stepZ G S) (stepP G S cache) (subsetSteps G S i n)))
     (hdis : StepsDisjoint (stepZ G S) (stepP G S cache) (subsetSteps G S i n))
@@ -238,6 +250,90 @@ theorem C04_backproj_backInto (cache : Bool) (s : BackProj K) (y : Array K) (i n
     (BackProj.backInto rows ig idx G S cache s y i n).2 = bckSubset rows ig idx G S cache y i n (zeroImg s.density.size) := by
   simp [BackProj.backInto, BackProj.backSubset, BackProj.getOutput, BackProj.start, fillZero_eq]
 
+/-! ## pre- and post- data processors; `forward_project(proj_data, image, …)` -/
+
+/-- without a pre-data-processor `forward_project(proj_data, image, subset_num, num_subsets, zero)` (= `set_input(image)`
+    followed by `forward_project(proj_data, subset_num, num_subsets, zero)`) is `fwdSubset` on the image itself: all theorems
+    about `fwdSubset` are theorems about that overload. -/
+theorem C04_fwd_project_no_processor (cache : Bool) (x d : Array K) (i n : Int) (zero : Bool) :
+    fwdProject rows ig idx G S none cache x d i n zero = fwdSubset rows ig idx G S cache x d i n zero := by
+  simp [fwdProject, setInput]
+
+/-- with a pre-data-processor the projector works on the processed copy; a processor that fails is an error of
+    `set_input` (`throw`), whatever the subset arguments are. -/
+theorem C04_fwd_project_processor (p : Proc K) (cache : Bool) (x d : Array K) (i n : Int) (zero : Bool) :
+    fwdProject rows ig idx G S (some p) cache x d i n zero
+      = match p x with
+        | none => none
+        | some x' => fwdSubset rows ig idx G S cache x' d i n zero := by
+  simp only [fwdProject, setInput]
+  cases h : p x <;> simp
+
+/-- `get_output` without a post-data-processor hands out the accumulation target; with one it hands out the processed copy
+    and — the function returning no new state — leaves the target as it was: a later `back_project` accumulates on the
+    unprocessed sum. -/
+theorem C04_get_output_post (s : BackProj K) (q : Proc K) :
+    s.getOutputPost none = some s.getOutput ∧ s.getOutputPost (some q) = q s.getOutput := by
+  simp [BackProj.getOutputPost, BackProj.getOutput]
+
+/-- "the two operations are adjoint" **through the data processors**: if the post-processor `q` of the back projector is the
+    adjoint of the pre-processor `p` of the forward projector (`⟨p u, v⟩ = ⟨u, q v⟩`; in particular `p = q` self-adjoint) and
+    `p` keeps the image size, then `⟨A (p x), y⟩ = ⟨x, q (Aᵀ y)⟩` for the rows of any sequence of bins: `set_input` with
+    `p`, forward projection, against back projection into a fresh target and `get_output` with `q`. -/
+theorem C04_adjoint_with_processors (p q : Array K → Array K) (hp : ∀ u, (p u).size = u.size)
+    (hadj : ∀ u v : Array K, u.size = v.size → dotImg (p u) v = dotImg u (q v))
+    (x y d : Array K) (bins : List Bin) (hinj : InjOn idx bins) (hsz : ∀ b ∈ bins, idx b < d.size) :
+    ∃ x' out, setInput (some fun u => some (p u)) x = some x'
+      ∧ (BackProj.mk (bckBins rows ig idx y bins (zeroImg x.size))).getOutputPost (some fun v => some (q v)) = some out
+      ∧ dotBins idx (fwdBins rows ig idx x' bins d) y bins = dotImg x out :=
+  ⟨p x, q (bckBins rows ig idx y bins (zeroImg x.size)), rfl, rfl,
+    adjoint_bins_processed rows ig idx p q hp hadj x y d bins hinj hsz⟩
+
+/-- "with a scaling processor results scale": forward projection after `set_input` with the processor `image *= c` is `c`
+    times the unprocessed forward projection at every processed bin, and `get_output` with it is `c` times the target. -/
+theorem C04_scaling_processor_scales (c : K) (x d : Array K) (bins : List Bin) (hinj : InjOn idx bins)
+    (hsz : ∀ b ∈ bins, idx b < d.size) (s : BackProj K) :
+    (∃ x', setInput (some (procScale c)) x = some x' ∧
+      ∀ b ∈ bins, (fwdBins rows ig idx x' bins d).getD (idx b) 0 = c * (fwdBins rows ig idx x bins d).getD (idx b) 0)
+    ∧ (∃ out, s.getOutputPost (some (procScale c)) = some out ∧ ∀ v, out.getD v 0 = c * s.getOutput.getD v 0) := by
+  refine ⟨⟨x.map fun v => c * v, rfl, ?_⟩, ⟨s.density.map fun v => c * v, rfl, ?_⟩⟩
+  · intro b hb
+    rw [getD_fwdBins_mem rows ig idx _ d bins hinj b hb (hsz b hb), getD_fwdBins_mem rows ig idx _ d bins hinj b hb (hsz b hb)]
+    have := fwdRow_map_mul ig (rows b) c x 0
+    simpa using this
+  · intro v
+    exact getD_map_mul c s.density v
+
+/-- the scaling processor satisfies the hypotheses of `C04_adjoint_with_processors` (it is self-adjoint) -/
+theorem C04_scaling_processor_self_adjoint (c : K) :
+    (∀ u : Array K, (u.map fun a => c * a).size = u.size)
+    ∧ (∀ u v : Array K, u.size = v.size → dotImg (u.map fun a => c * a) v = dotImg u (v.map fun a => c * a)) :=
+  ⟨fun u => size_map_mul c u, fun u v _ => dotImg_map_mul c u v⟩
+
+/-! ## projection data smaller than the set-up geometry -/
+
+/-- "projecting piecewise … equals projecting at once", for a piece that is a **smaller projection-data object**: the same
+    projector (same `rows`) called once with data of geometry `G`, layout `idx` and once with data of geometry `G'`, layout
+    `idx'`, related-position lists `S'.rel` for the ranges of the smaller data (any subset arguments, any `zero`, either
+    branch in either call) writes the same value for every bin that both calls process — the projection of the smaller data
+    is the restriction of the projection of the larger. -/
+theorem C04_fwd_smaller_data_is_restriction (x : Array K)
+    (cache : Bool) (d out : Array K) (i n : Int) (zero : Bool)
+    (h : fwdSubset rows ig idx G S cache x d i n zero = some out)
+    (hinj : InjOn idx (stepBins (stepZ G S) (stepP G S cache) (subsetSteps G S i n)))
+    (hdis : StepsDisjoint (stepZ G S) (stepP G S cache) (subsetSteps G S i n))
+    (hsz : ∀ b ∈ stepBins (stepZ G S) (stepP G S cache) (subsetSteps G S i n), idx b < d.size)
+    (G' : PDGeom) (S' : Syms) (idx' : Bin → Nat) (cache' : Bool) (d' out' : Array K) (i' n' : Int) (zero' : Bool)
+    (h' : fwdSubset rows ig idx' G' S' cache' x d' i' n' zero' = some out')
+    (hinj' : InjOn idx' (stepBins (stepZ G' S') (stepP G' S' cache') (subsetSteps G' S' i' n')))
+    (hdis' : StepsDisjoint (stepZ G' S') (stepP G' S' cache') (subsetSteps G' S' i' n'))
+    (hsz' : ∀ b ∈ stepBins (stepZ G' S') (stepP G' S' cache') (subsetSteps G' S' i' n'), idx' b < d'.size)
+    (q : Int × Int × Int) (hq : q ∈ subsetSteps G S i n) (q' : Int × Int × Int) (hq' : q' ∈ subsetSteps G' S' i' n')
+    (b : Bin) (hb : b ∈ stepP G S cache q) (hb' : b ∈ stepP G' S' cache' q') :
+    out'.getD (idx' b) 0 = out.getD (idx b) 0 := by
+  rw [(C04_fwd_subset_value rows ig idx G S cache x d out i n zero h hinj hdis hsz q hq b).1 hb,
+    (C04_fwd_subset_value rows ig idx' G' S' cache' x d' out' i' n' zero' h' hinj' hdis' hsz' q' hq' b).1 hb']
+
 /-! ## the two branches -/
 
 /-- the `already_processed` loop of the explicit-symmetries branch visits every position of the requested range exactly
@@ -318,6 +414,27 @@ example : ((List.range 2).map fun (i : Nat) => (subsetSteps exG exS i 2).flatMap
 example : (5 : Nat) ∉ touched exIdx2 (stepZ exG exS) (stepP exG exS true) (subsetSteps exG exS 1 2)
     ∧ (12 : Nat) ∉ touched exIdx2 (stepZ exG exS) (stepP exG exS true) (subsetSteps exG exS 1 2)
     ∧ (6 : Nat) ∈ touched exIdx2 (stepZ exG exS) (stepP exG exS true) (subsetSteps exG exS 1 2) := by decide
+
+/-- a smaller data set inside `exG`: the same 4 views, tangential positions 0..1 only, axial position 1 only; its layout -/
+def exG' : PDGeom := ⟨0, 0, 0, 3, 0, 1, 0, 0, fun _ => 1, fun _ => 1⟩
+def exS' : Syms := ⟨fun v _ => decide (v < 2), fun v s => [(v, s), (v + 2, s)], fun _ _ _ => relCyl ⟨1, 1, 0, 1⟩⟩
+def exIdx2' (b : Bin) : Nat := (b.view * 2 + b.tang).toNat
+
+/-- the hypotheses of `C04_fwd_smaller_data_is_restriction` hold for the whole of `exG` and subset 1 of 2 of the smaller
+    `exG'`, and the bin (view 3, axial 1, tangential 1) is processed by both calls (in step (1,0,0) of either) -/
+example : InjOn exIdx2' (stepBins (stepZ exG' exS') (stepP exG' exS' false) (subsetSteps exG' exS' 1 2))
+    ∧ StepsDisjoint (stepZ exG' exS') (stepP exG' exS' false) (subsetSteps exG' exS' 1 2)
+    ∧ (∀ b ∈ stepBins (stepZ exG' exS') (stepP exG' exS' false) (subsetSteps exG' exS' 1 2), exIdx2' b < 8)
+    ∧ (1, 0, 0) ∈ subsetSteps exG' exS' 1 2 ∧ (1, 0, 0) ∈ subsetSteps exG exS 0 1
+    ∧ (⟨0, 3, 1, 1, 0⟩ : Bin) ∈ stepP exG' exS' false (1, 0, 0) ∧ (⟨0, 3, 1, 1, 0⟩ : Bin) ∈ stepP exG exS true (1, 0, 0) := by
+  unfold InjOn StepsDisjoint; decide
+
+/-- the processors: `set_input` with the scaling processor on numbers, a failing processor, `get_output` with a processor -/
+example : setInput (some (procScale (3 : Int))) #[1, -2] = some #[3, -6]
+    ∧ setInput (some fun _ => none) #[(1 : Int), -2] = none
+    ∧ setInput none #[(1 : Int), -2] = some #[1, -2]
+    ∧ (BackProj.mk #[(1 : Int), 2]).getOutputPost (some (procScale 2)) = some #[2, 4] := by
+  simp [setInput, procScale, BackProj.getOutputPost]
 
 /-- the whole chain evaluated on numbers (`K = ℤ`): one row through two voxels, forward and back -/
 example : fwdRow ⟨0, 0, fun v => v.2.2.toNat⟩ [((0, 0, 0), (2 : Int)), ((0, 0, 1), 3), ((5, 0, 1), 7)] #[10, 100] 0 = 320
